@@ -202,7 +202,7 @@ class FnAnalysis:
     def is_ref_local(self, l):
         return self.ty(l)["k"] in ("ref", "ptr")
 
-    def resolve_targets(self, l, keys):
+    def resolve_targets(self, l, keys, for_write=False):
         """abstract locations denoted by place (l, keys): list of (local, path)"""
         targets = [(l, ())]
         extra = set()
@@ -213,8 +213,11 @@ class FnAnalysis:
                     als = self.alias.get(b)
                     if als:
                         # one level of indirection; prefer the ultimate referents over borrow carriers
-                        leaves = [x for x in als if not self.alias.get(x[0])]
-                        nt.extend(leaves if leaves else als)
+                        if for_write:
+                            leaves = [x for x in als if not self.alias.get(x[0])]
+                            nt.extend(leaves if leaves else als)
+                        else:
+                            nt.extend(als)
                     else:
                         nt.append((b, p))
                 targets = nt
@@ -328,7 +331,7 @@ class FnAnalysis:
         if aliases and not proj and not self.can_hold_borrow(l):
             aliases = None
         keys = place_path(proj)
-        targets, _ = self.resolve_targets(l, keys)
+        targets, _ = self.resolve_targets(l, keys, for_write=True)
         self.write_targets(targets, st)
         if aliases:
             for (b, p) in targets:
@@ -386,7 +389,12 @@ class FnAnalysis:
             op = rv.ops[0]
             st = self.operand_struct(op)
             if k == "cast" and rv.cast_kind in ("PointerCoercion", "PtrToPtr", "Transmute"):
-                self.write_place(s.place, st, self.operand_aliases(op))
+                als = self.operand_aliases(op)
+                if not als and op.kind in ("copy", "move") and not s.place[1] and self.ty(s.place[0])["k"] in ("ref", "ptr"):
+                    # a raw pointer manufactured from an owning value (Box internals in `vec!`): it
+                    # points into that value
+                    als = {(op.place[0], ())}
+                self.write_place(s.place, st, als)
             elif k == "repeat":
                 self.write_place(s.place, Struct({(): st.flat()}))
             else:
